@@ -14,6 +14,7 @@
    result value ([None] / [PCrash]), never a default. *)
 From Coq Require Import ZArith NArith List Bool String Ascii Decimal.
 Import ListNotations.
+Require Import EmbossV.Pipeline.Order.
 Open Scope N_scope.
 
 Definition str := list N.
@@ -103,8 +104,19 @@ Fixpoint lookup (f : str) (S : sources) : option str :=
 (* ---- _Message.format ---- *)
 Definition is_nil {A} (l : list A) : bool := match l with [] => true | _ => false end.
 
-(* the line `source_lines[self.location.start.line - 1]`; None = IndexError *)
-Definition source_line_of (S : sources) (m : message) : option str :=
+(* source_line: `source_lines[line - 1]` if 0 < line <= len(source_lines) else ""   (commit f285438) *)
+Definition source_line_of (S : sources) (m : message) : str :=
+  if lsyn (mloc m) then []
+  else match lookup (mfile m) S with
+       | None => []
+       | Some txt =>
+           let ls := splitlines txt in
+           let n := pline (lstart (mloc m)) in
+           if (0 <? n) && (N.to_nat n <=? List.length ls)%nat then nth (N.to_nat (n - 1)) ls [] else []
+       end.
+
+(* before f285438: `source_lines[self.location.start.line - 1]` unguarded; None = IndexError *)
+Definition source_line_of_old (S : sources) (m : message) : option str :=
   if lsyn (mloc m) then Some []
   else match lookup (mfile m) S with
        | None => Some []
@@ -137,11 +149,13 @@ Definition snippet (m : message) (source_line : str) : list (color * str) :=
   else [(WHITE, source_line ++ [10]);
         (BRIGHT_GREEN, repeat 32 (N.to_nat (pcol (lstart (mloc m)) - 1)) ++ repeat 94 (caret_count (mloc m)))].
 
-Definition format (S : sources) (m : message) : option (list (color * str)) :=
-  match source_line_of S m with
-  | None => None
-  | Some sl => Some (header m true (negb (is_nil sl)) (splitlines (mtext m)) ++ snippet m sl)
-  end.
+Definition render (m : message) (sl : str) : list (color * str) :=
+  header m true (negb (is_nil sl)) (splitlines (mtext m)) ++ snippet m sl.
+
+Definition format (S : sources) (m : message) : list (color * str) := render m (source_line_of S m).
+
+Definition format_old (S : sources) (m : message) : option (list (color * str)) :=
+  option_map (render m) (source_line_of_old S m).
 
 Definition plain (parts : list (color * str)) : str := List.concat (map snd parts).
 
@@ -166,16 +180,22 @@ Fixpoint opt_all {A} (l : list (option A)) : option (list A) :=
   | Some x :: t => match opt_all t with Some r => Some (x :: r) | None => None end
   end.
 
-(* None = an exception (the non-empty-group assert, or IndexError inside format) *)
+(* None = the `assert error_group` fired *)
 Definition format_errors (e : errors) (S : sources) : option str :=
   if existsb is_nil e then None
-  else match opt_all (map (format S) (List.concat e)) with
+  else Some (join [10] (map (fun m => plain (format S m)) (List.concat e))).
+
+(* before f285438: additionally None when format raised IndexError *)
+Definition format_errors_old (e : errors) (S : sources) : option str :=
+  if existsb is_nil e then None
+  else match opt_all (map (format_old S) (List.concat e)) with
        | None => None
        | Some parts => Some (join [10] (map plain parts))
        end.
 
 (* ---- make_error_from_parse_error ---- *)
-(* lr1.Parser.parse appends Symbol(END_OF_INPUT), a namedtuple with only `.symbol`. *)
+(* parser_types.Token, and lr1.Symbol (a namedtuple with only `.symbol`, used as the end-of-input
+   marker before commit ca2355e) *)
 Inductive token :=
 | Tok (symbol text : str) (l : option loc)
 | EndOfInput.
@@ -204,7 +224,13 @@ Definition py_repr (np : list N) (s : str) : str :=
   let q := if existsb (N.eqb 39) s && negb (existsb (N.eqb 34) s) then 34 else 39 in
   [q] ++ flat_map (repr_char np q) s ++ [q].
 
+(* ", ".join(sorted(parse_error.expected_tokens))   (sorted since commit e30aa7a) *)
 Definition parse_error_text (np : list N) (code : option str) (text symbol : str) (expected : list str) : str :=
+  match code with Some c => if is_nil c then s2l "Syntax error" else c | None => s2l "Syntax error" end
+  ++ [10] ++ s2l "Found " ++ py_repr np text ++ s2l " (" ++ symbol ++ s2l "), expected "
+  ++ join (s2l ", ") (isort str_cmp expected) ++ [46].
+(* before: ", ".join(parse_error.expected_tokens) *)
+Definition parse_error_text_old (np : list N) (code : option str) (text symbol : str) (expected : list str) : str :=
   match code with Some c => if is_nil c then s2l "Syntax error" else c | None => s2l "Syntax error" end
   ++ [10] ++ s2l "Found " ++ py_repr np text ++ s2l " (" ++ symbol ++ s2l "), expected "
   ++ join (s2l ", ") expected ++ [46].
@@ -215,6 +241,23 @@ Definition make_error_from_parse_error (np : list N) (file : str) (e : parse_err
   | EndOfInput => None
   | Tok symbol text l => Some [mk_error file l (parse_error_text np (pe_code e) text symbol (pe_expected e))]
   end.
+
+(* lr1.Parser.parse: the end-of-input marker appended to the token list, and the token an Error
+   action at position `cursor` reports *)
+Definition tok_end (t : token) : option pos :=
+  match t with
+  | Tok _ _ (Some l) => if loc_truthy l then Some (lend l) else None
+  | _ => None
+  end.
+Definition end_marker (tokens : list token) : token :=
+  Tok [36] [] (match last (map Some tokens) None with
+               | Some t => match tok_end t with Some p => Some (mkLoc p p false) | None => None end
+               | None => None
+               end).
+Definition end_marker_old (tokens : list token) : token := EndOfInput.
+Definition error_token (marker : list token -> token) (tokens : list token) (cursor : nat) : option token :=
+  nth_error (tokens ++ [marker tokens]) cursor.
+Definition is_tok (t : token) : bool := match t with Tok _ _ _ => true | EndOfInput => false end.
 
 (* ---- glue.process_ir ---- *)
 Section Pipeline.
@@ -360,6 +403,9 @@ Definition names_position (m : message) (r : list (color * str)) : Prop :=
     exists tail,
       r = (BOLD, source_name m ++ [58] ++ dec (pline (lstart (mloc m))) ++ [58] ++ dec (pcol (lstart (mloc m))) ++ [58; 32])
           :: tail.
+
+Definition names_position_any (m : message) (r : list (color * str)) : Prop :=
+  forall l0 rest, splitlines (mtext m) = l0 :: rest -> exists tail, r = (BOLD, prefix_text m) :: tail.
 
 Definition shows_line (m : message) (line : str) (r : list (color * str)) : Prop :=
   line <> [] ->
